@@ -358,6 +358,49 @@ def dim_dependent(ctx, rule="R14.5"):
 PARAM_FIELDS = {"_var", "_len_scale", "_nugget", "_anis", "_angles", "_rescale", "_dim", "OPTARG[*]"}
 
 
+def no_shared_fields(ctx, rule, rel, cls_name, fields, floor=1):
+    """Fields of `cls_name` that hold input data must not share memory with the caller's arrays (a later in-place change of the caller's
+    array would silently change the object's state behind every derived quantity computed from it)."""
+    from .. import alias
+    from .C20 import public_entries
+
+    prog = ctx.prog
+    an = alias.analyzed(prog)
+    cls = prog.cls(rel, cls_name)
+    entries = public_entries(prog, an)
+    n = 0
+    for fq in sorted(entries):
+        m, fn, ci, kind = an.funcs[fq]
+        if ci is None or not ci.is_subclass_of(cls):
+            continue
+        for attr, labs in sorted(an.summ[fq].store.items()):
+            if attr in fields:
+                n += 1
+                ps = sorted(l for l in labs if l.startswith("P:"))
+                ctx.check(not ps, rule, fq, "self.%s does not share memory with an argument (may alias: %s)" % (attr, ps), "shared:%s:%s" % (attr, ",".join(ps)))
+    ctx.floor(rule, "input-data field stores by public entry points of %s" % cls_name, n, floor)
+
+
+def no_subclass_caches(ctx, rule="R14.11"):
+    """The shipped model classes compute everything from the current parameters: no method of a CovModel subclass (outside __init__) stores
+    an attribute on the instance - such a value would survive the next parameter change (only setters of CovModel itself write state)."""
+    prog = ctx.prog
+    cm = prog.cls(BASE, "CovModel")
+    n = 0
+    for c in prog.subclasses(cm):
+        for kind in ("methods", "getters"):
+            for name, fn in getattr(c, kind).items():
+                if name == "__init__":
+                    continue
+                n += 1
+                st = sorted({ast.unparse(t) for node in ast.walk(fn) if isinstance(node, (ast.Assign, ast.AugAssign, ast.AnnAssign))
+                             for t in (node.targets if isinstance(node, ast.Assign) else [node.target]) for t in [t]
+                             if isinstance(t, ast.Attribute) and isinstance(t.value, ast.Name) and t.value.id == "self"}
+                            | {"setattr(self, ...)" for node in ast.walk(fn) if isinstance(node, ast.Call) and getattr(node.func, "id", "") == "setattr" and node.args and ast.unparse(node.args[0]) == "self"})
+                ctx.check(not st, rule, "%s::%s.%s" % (c.module.relpath, c.name, name), "method keeps no state on the instance (stores: %s)" % st, "subclass-store:%s" % ",".join(st))
+    ctx.floor(rule, "methods of model subclasses inspected", n, 60)
+
+
 def no_shared_parameter_arrays(ctx, rule="R14.8"):
     """A parameter field that shares memory with an array of the caller can be changed from outside without any check running
     (and in-place normalisation inside the model writes into the caller's data)."""
@@ -365,8 +408,7 @@ def no_shared_parameter_arrays(ctx, rule="R14.8"):
     from .C20 import public_entries
 
     prog = ctx.prog
-    an = alias.Analyzer(prog)
-    an.run()
+    an = alias.analyzed(prog)
     cm = prog.cls(BASE, "CovModel")
     entries = public_entries(prog, an)
     n = 0
@@ -407,6 +449,7 @@ def constructor_var_last(ctx, rule="R14.10"):
 
 
 def run(ctx):
+    no_subclass_caches(ctx)
     constructor_var_last(ctx)
     from .C12 import bookkeeping
 
